@@ -8,7 +8,10 @@ Parts
   simulation : each driver with non-default settings, advanced a few steps, round-tripped likewise.
   imports    : (finite, exhaustive) for every public module M: a fresh interpreter imports M first, then
                the sub-packages, rebuilds a JSON bundle holding one serialised instance of every class and
-               re-serialises it.
+               re-serialises it; and for every pair (M, home sub-package H of a class): a fresh interpreter
+               imports M, then ONLY H, and rebuilds the classes of H (a user restoring a move imports
+               quansino.moves, not the whole package; the table entry of quansino.utils is restored
+               with the moves and criteria it references imported).
 """
 from __future__ import annotations
 
@@ -48,7 +51,7 @@ LEVEL_TEXT = (
 )
 LEVEL_NOTE = "Trusted: ase.io.jsonio encode/decode, inspect.signature, the rule that selects concrete components (documented in DESIGN.md C08)."
 DESIGN_REF = "DESIGN.md section 3, C08"
-EXHAUSTIVE_NOTE = "imports: every public module found by pkgutil.walk_packages is tried as the first import (one fresh interpreter each)"
+EXHAUSTIVE_NOTE = "imports: every public module found by pkgutil.walk_packages is tried as the first import (one fresh interpreter each), alone followed by all sub-packages and paired with each home sub-package imported in isolation"
 
 
 # ------------------------------------------------------------------ discovery
@@ -592,10 +595,17 @@ bundle = json.load(open(sys.argv[2]))      # name -> [home sub-package, encoded 
 importlib.import_module(first)
 from ase.io.jsonio import decode, encode
 out = {}
+only = sys.argv[3] if len(sys.argv) > 3 else None
 # classes are rebuilt sub-package by sub-package, importing ONLY the home sub-package of the class (after `first`):
 # a user who restores an operation needs quansino.operations, not the whole package
 order = ["quansino.operations", "quansino.integrators", "quansino.moves", "quansino.mc", "quansino.utils"]  # a MoveStorage references moves and criteria: last
+if only and only != "quansino.utils":
+    # isolated: this interpreter has imported `first` and imports the home sub-package of the class, nothing else
+    order = [only]
 for home in order:
+    if only == "quansino.utils" and home != only:
+        importlib.import_module(home)      # a table entry is restored through a driver: moves and criteria are imported
+        continue
     items = [(n, v[1]) for n, v in sorted(bundle.items()) if v[0] == home]
     if not items:
         continue
@@ -654,18 +664,22 @@ def run_imports(seed, shard, nshards, budget):
     json.dump(bundle, open(tmp, "w"))
     script = os.path.join(ROOT, "replays", f".c08_import_{os.getpid()}.py")
     open(script, "w").write(IMPORT_SCRIPT)
-    mine = [m for i, m in enumerate(sorted(mods)) if i % nshards == shard]
+    mine = []
     keys = []
     try:
-        for m in mine:
-            out = run_import_case({"first": m}, script, tmp)
+        homes = sorted({v[0] for v in bundle.values()})
+        pairs = [(m, h) for m in sorted(mods) for h in [None, *homes]]   # None: all homes one after the other in one interpreter
+        mine = [p for i, p in enumerate(pairs) if i % nshards == shard]
+        for m, h in mine:
+            case = {"first": m} if h is None else {"first": m, "home": h}
+            out = run_import_case(case, script, tmp)
             res["evaluations"] += 1
             res["classes"][out["labels"][0]] = res["classes"].get(out["labels"][0], 0) + 1
-            keys.append(m)
+            keys.append(m + ">" + (h or "all"))
             if out["violation"]:
-                res["violations"].append({"part": "imports", "kind": out["violation"]["kind"], "detail": out["violation"]["detail"], "case": {"first": m}})
+                res["violations"].append({"part": "imports", "kind": out["violation"]["kind"], "detail": out["violation"]["detail"], "case": case})
             if len(res["samples"]) < 2:
-                res["samples"].append({"part": "imports", "labels": out["labels"], "case": {"first": m}, "summary": out.get("summary")})
+                res["samples"].append({"part": "imports", "labels": out["labels"], "case": case, "summary": out.get("summary")})
     finally:
         for p in (tmp, script):
             try:
@@ -673,7 +687,7 @@ def run_imports(seed, shard, nshards, budget):
             except OSError:
                 pass
     res["nontrivial_keys"] = ["import|" + k for k in keys]
-    res["extra"] = {"import_modules": mine}
+    res["extra"] = {"import_pairs": [m + ">" + (h or "all") for m, h in mine]}
     return res
 
 
@@ -688,7 +702,7 @@ def run_import_case(case, script=None, bundle_path=None):
         open(script, "w").write(IMPORT_SCRIPT)
     try:
         env = dict(os.environ)
-        cp = subprocess.run([sys.executable, script, case["first"], bundle_path], capture_output=True, text=True, env=env, timeout=300)
+        cp = subprocess.run([sys.executable, script, case["first"], bundle_path, *([case["home"]] if case.get("home") else [])], capture_output=True, text=True, env=env, timeout=300)
     finally:
         if own:
             for p in (bundle_path, script):
@@ -696,8 +710,8 @@ def run_import_case(case, script=None, bundle_path=None):
                     os.remove(p)
                 except OSError:
                     pass
-    first = case["first"]
-    out = {"labels": ["import-first"], "nontrivial": True, "violation": None}
+    first = case["first"] + (f" (then only {case['home']})" if case.get("home") else "")
+    out = {"labels": ["import-first-isolated-home" if case.get("home") else "import-first"], "nontrivial": True, "violation": None}
     if cp.returncode != 0:
         err = (cp.stderr.strip().splitlines() or ["?"])[-1]
         out["violation"] = {"kind": "import-order:" + ("circular" if "circular" in cp.stderr or "partially initialized" in cp.stderr else "error"),
@@ -727,12 +741,12 @@ def plan(tier):
         return [
             {"part": "components", "shards": 10, "budget": {"n_examples": 1000}},
             {"part": "simulation", "shards": 3, "budget": {"n_examples": 250}},
-            {"part": "imports", "shards": 8, "budget": {}},
+            {"part": "imports", "shards": 16, "budget": {}},
         ]
     return [
         {"part": "components", "shards": 12, "budget": {"n_examples": 40000}},
         {"part": "simulation", "shards": 4, "budget": {"n_examples": 8000}},
-        {"part": "imports", "shards": 8, "budget": {}},
+        {"part": "imports", "shards": 16, "budget": {}},
     ]
 
 
